@@ -1186,6 +1186,23 @@ class Qube(object):
 
         return self
 
+    def _merge_mask_(self, mask):
+        """Low-level method to merge another mask into the mask of this object,
+        as the in-place operators do.
+
+        The mask remains a single bool or a boolean array of exactly the shape
+        of this object, also when the mask of the operand has to be broadcast.
+        """
+
+        mask = Qube.or_(self._mask_, mask)
+        if isinstance(mask, np.ndarray):
+            if mask.shape != self._shape_:
+                mask = np.broadcast_to(mask, self._shape_).copy()
+        else:
+            mask = bool(mask)
+
+        self._mask_ = mask
+
     def _new_values_(self):
         """Low-level method to indicate that values have changed.
 
@@ -3014,7 +3031,7 @@ class Qube(object):
 
         new_derivs = self._add_derivs(self,arg) # if this raises exception, stop
         self._values_ += arg._values_           # on exception, no harm done
-        self._mask_ = Qube.or_(self._mask_, arg._mask_)
+        self._merge_mask_(arg._mask_)
         self._units_ = self._units_ or arg._units_
         self.insert_derivs(new_derivs)
 
@@ -3138,7 +3155,7 @@ class Qube(object):
 
         new_derivs = self._sub_derivs(self,arg) # if this raises exception, stop
         self._values_ -= arg._values_           # on exception, no harm done
-        self._mask_ = Qube.or_(self._mask_, arg._mask_)
+        self._merge_mask_(arg._mask_)
         self._units_ = self._units_ or arg._units_
         self.insert_derivs(new_derivs)
 
@@ -3273,7 +3290,7 @@ class Qube(object):
 
             new_derivs = self._mul_derivs(arg)  # if this raises exception, stop
             self._values_ *= arg_values         # on exception, object unchanged
-            self._mask_ = Qube.or_(self._mask_, arg._mask_)
+            self._merge_mask_(arg._mask_)
             self._units_ = Units.mul_units(self._units_, arg._units_)
             self.insert_derivs(new_derivs)
 
@@ -3627,7 +3644,7 @@ class Qube(object):
                                                     self._rank_ * (1,))
             self._require_broadcast_into('//=', arg)
             self._values_ //= div_values
-            self._mask_ = self._mask_ | divisor._mask_
+            self._merge_mask_(divisor._mask_)
             self._units_ = Units.div_units(self._units_, arg._units_)
             self.delete_derivs()
 
@@ -3760,7 +3777,7 @@ class Qube(object):
                                                     self._rank_ * (1,))
             self._require_broadcast_into('%=', arg)
             self._values_ %= div_values
-            self._mask_ = self._mask_ | divisor._mask_
+            self._merge_mask_(divisor._mask_)
             self._units_ = Units.div_units(self._units_, arg._units_)
 
             self._cache_.clear()
@@ -4146,7 +4163,7 @@ class Qube(object):
         if isinstance(arg, Qube):
             self._require_broadcast_into('&=', arg)
             self._values_ &= (arg._values_ != 0)
-            self._mask_ = Qube.or_(self._mask_, arg._mask_)
+            self._merge_mask_(arg._mask_)
         else:
             self._values_ &= (arg != 0)
 
@@ -4164,7 +4181,7 @@ class Qube(object):
         if isinstance(arg, Qube):
             self._require_broadcast_into('|=', arg)
             self._values_ |= (arg._values_ != 0)
-            self._mask_ = Qube.or_(self._mask_, arg._mask_)
+            self._merge_mask_(arg._mask_)
         else:
             self._values_ |= (arg != 0)
 
@@ -4182,7 +4199,7 @@ class Qube(object):
         if isinstance(arg, Qube):
             self._require_broadcast_into('^=', arg)
             self._values_ ^= (arg._values_ != 0)
-            self._mask_ = Qube.or_(self._mask_, arg._mask_)
+            self._merge_mask_(arg._mask_)
         else:
             self._values_ ^= (arg != 0)
 
